@@ -171,7 +171,7 @@ var intrinsicNames = map[string]bool{
 	"vRequires": true, "vEnsures": true, "vAssert": true, "vAssume": true, "vForall": true, "vExists": true,
 	"vSameRegion": true, "vOffset": true, "vModifiesBytes": true, "vModifiesAll": true, "vFresh": true,
 	"vCanary": true, "vAllocs": true, "vUnreachable": true, "vModifiesObj": true, "vNoAlias": true, "vOpaque": true,
-	"vModifiesNothing": true, "vBorrowed": true, "vIsFreshRegion": true, "vModifiesHeap": true, "vStrictLen": true, "vAtEntry": true, "vModifiesMems": true, "vReveal": true, "vModifiesField": true,
+	"vModifiesNothing": true, "vBorrowed": true, "vIsFreshRegion": true, "vModifiesHeap": true, "vStrictLen": true, "vAtEntry": true, "vFuel": true, "vModifiesMems": true, "vReveal": true, "vModifiesField": true,
 }
 
 func (e *Engine) callStatic(fr *Frame, st *State, callee *ssa.Function, args []Value, site ssa.Instruction) []Value {
@@ -581,6 +581,11 @@ func (e *Engine) intrinsic(fr *Frame, st *State, callee *ssa.Function, args []Va
 			unsup("vAtEntry value not recorded at loop entry")
 		}
 		return []Value{scalar(v)}
+	case "vFuel":
+		if h != nil && h.mode == modeVerify && args[0].term().IsConst() {
+			e.unfoldFuel = int(args[0].term().val.Int64())
+		}
+		return nil
 	case "vReveal":
 		if h != nil && h.mode == modeVerify {
 			e.reveal = true
